@@ -13,6 +13,7 @@ import Driver.Spnego
 import Driver.KdcRep
 import Driver.Client
 import Driver.Shared
+import Driver.HttpClient
 
 open Driver
 
@@ -36,6 +37,7 @@ def dispatch (line : String) : String :=
       else if op.startsWith "kr." then KdcRep.handle op args
       else if op.startsWith "cl." then Client.handle op args
       else if op.startsWith "sh." then Shared.handle op args
+      else if op.startsWith "hc." then HttpClient.handle op args
       else none
     match r with
     | some s => s
